@@ -135,6 +135,10 @@ def run(ctx):
     for threads, mmap, mode in combos:
         obs = _lib_scenario(ctx, aux, inputs, threads, mmap, mode, new_kind="so", premise=True)
         pairs.append((model_req("mapped", mode, 1, threads, mmap), obs, norm))
+    # ---- (b') the same through a symlinked output path (not part of the model correspondence: the property itself is checked)
+    for threads, mmap, mode in combos[:2] if ctx.quick else combos:
+        obs = _lib_scenario(ctx, aux, inputs, threads, mmap, mode, new_kind="so", premise=True, symlink=True)
+        ctx.count("symlinked-output", obs)
     # ---- (c) boundary runs: premise not met; recorded, compared with the model, never violations
     for threads in (4, 1):
         obs = _lib_scenario(ctx, aux, inputs, threads, 1, "default", new_kind="exe", premise=False)
@@ -197,13 +201,16 @@ def _exe_scenario(ctx, inputs, threads, mmap, mode, premise):
         C.stop(p)
 
 
-def _lib_scenario(ctx, aux, inputs, threads, mmap, mode, new_kind, premise):
+def _lib_scenario(ctx, aux, inputs, threads, mmap, mode, new_kind, premise, symlink=False):
     d = C.mk_sandbox(ctx, "c21b")
     obj = os.path.join(d, "lib.o")
     shutil.copy(os.path.join(aux, "lib1.o"), obj)
     lib = os.path.join(d, "libh.so")
-    cmd = [obj, "-shared", "-o", "libh.so"] + flags(threads, mmap, mode if mode != "uip" else "default")
+    # symlink=True: the usual `libh.so -> libh.so.1` arrangement; the holder loads and the relink writes through the link name
+    cmd = [obj, "-shared", "-o", "libh.so.1" if symlink else "libh.so"] + flags(threads, mmap, mode if mode != "uip" else "default")
     rc, err = C.run_wild(cmd, d)
+    if symlink and rc == 0:
+        os.symlink("libh.so.1", lib)
     if rc != 0:
         ctx.broken.append(f"C21 setup link of the library failed: {err[-200:]}")
         return "setup-failed"
